@@ -712,6 +712,20 @@ class C01(EvalProp):
             path = r.choice(['$[*].%s()', '$.*.%s()', '$.a[1:].%s().cnt()', '$[?(@.%s() > 0)]', '$.a.%s()', '$..%s()', '$.a[*].%s().%s()' % ('%s', aname)]) % nm
             cs.append(Case('du%d' % i, path.encode(), [doc], gens.FILTER_FUNCS + [fname], gens.AGG_FUNCS + [aname], False, False, 'eval',
                            meta={'family': 'dual-registered-name', 'nsteps': 2}))
+        # regular expressions that match the EMPTY string somewhere in every text: `=~` holds of every string member
+        for i in range(max(16, n // 300)):
+            pat = r.choice(['b*', '^x?', 'z*', '(ab)?', '^(..)?$', 'a*$', '^', '$', 'q?', '(?i)Z*', '[0-9]*', 'x*y*'])
+            strs = [('s', r.choice([b'', b'a', b'ab', b'xyz', b'abc', b'b', b'10', b'a b'])) for _ in range(r.randint(2, 5))]
+            mixed = strs + [r.choice([('n', 1.0), ('z',), ('b', True), ('a', []), ('o', [])])]
+            r.shuffle(mixed)
+            form = r.choice(['$[?(@ =~ /%s/)]', '$[?(@.a =~ /%s/)]', '$.*[?(@ =~ /%s/)]', '$[?(@ =~ /%s/ && @ != 1)]', '$..[?(@ =~ /%s/)]'])
+            if '.a' in form:
+                doc = ('a', [('o', [(b'a', v)]) for v in mixed])
+            elif form.startswith('$.*'):
+                doc = ('o', [(b'p', ('a', mixed)), (b'q', ('a', strs[:2]))])
+            else:
+                doc = ('a', mixed) if r.random() < 0.5 else ('o', [(b'k%d' % j, v) for j, v in enumerate(mixed)])
+            cs.append(Case('rx0_%d' % i, (form % pat).encode(), [doc], meta={'family': 'regex-matching-the-empty-string', 'nsteps': 2}))
         # tree dumps for a subset: parser model vs the real parser, node by node
         for c in cs[: max(50, n // 10)]:
             c.mode = 'tree'
@@ -1014,7 +1028,8 @@ class C04(EvalProp):
             r0 = g.r
             doc = ('o', [(kk, arr_(10 * j)) for j, kk in enumerate(r0.sample([b'a', b'b', b'c', b'z', b'k'], r0.randint(2, 4)))] + [(b'm', ('o', [(b'x', ('n', 99.0))]))])
             ag = r0.choice(['amax', 'cnt', 'arr', 'first'])
-            path = r0.choice(["$['a','b'].%s()" % ag, '$.*.%s()' % ag, '$..x', '$..[0]', '$[*][*]', "$['a','z','b']", '$..*', '$.a.%s()' % ag, '$[?(@[0])]', '$..x.%s()' % ag])
+            path = r0.choice(["$['a','b'].%s()" % ag, '$.*.%s()' % ag, '$..x', '$..[0]', '$[*][*]', "$['a','z','b']", '$..*', '$.a.%s()' % ag, '$[?(@[0])]', '$..x.%s()' % ag,
+                              "$['a','b','c','z','k'].%s()" % ag, '$[?(@[0])].%s()' % ag, "$['k','z','c','b','a'].%s()" % ag, '$[?(@[0])].%s()' % ag])
             c = Case('pk%d' % i, path.encode(), [doc, doc], [], [ag] if '%s' % ag in path else [], False, False, 'eval', meta={'nsteps': 2, 'family': 'packed-arrays'})
             c.packed = 1 + i % 9
             cs.append(c)
